@@ -496,6 +496,8 @@ def run(ctx):
     check_chunked_sections(ctx, "R16")
     # orbital blocks of the wavefunction formats, writer fragment against reader routine (rules of C01, adopted)
     ctx.borrow("c01", {"R14": "R17", "R15": "R18", "R16": "R19"})
+    ctx.rule("R20", "dictionary keys looked up by a writer are keys its reader stores", "`extra.get('occupancy')` on the writer side, `extra['occupancies']` on the reader side: the column is written with its default")
+    check_dict_keys(ctx, "R20")
     ctx.rule("R14", "formats read by splitting at white space are written with a literal separator between neighbouring fields", "for a large system a counter fills its field and touches its neighbour: the written line has fewer tokens and cannot be read back")
     with open(os.path.join(VERIF_DIR, "spec", "layouts.json")) as fh:
         column_formats = set(json.load(fh)) - {"_comment"}
@@ -632,3 +634,60 @@ def check_chunked_sections(ctx, rid):
                 else:
                     ctx.ok(rid, f"{g.name}: `{src_of(cs.node)[:60]}` writes every value once, in order (sequences of 1 .. {2 * nline + 3} values)", where)
     ctx.floor(rid, nsite, 5, "call sites of chunk writers")
+
+
+DICT_ATTRS = ("extra", "atffparams", "atcharges", "moments", "one_rdms", "two_rdms", "one_ints", "two_ints")
+
+
+def check_dict_keys(ctx, rid):
+    """Keys of the dictionary attributes: every constant key a writer looks up (`data.extra.get("k")`,
+    `data.atcharges["k"]`) is a key the format's own reader stores under the same attribute.  A key misspelt on one
+    side is not an error at run time -- the writer silently falls back to its default (occupancy 1.00, no charges),
+    so the value does not survive a save / reload cycle."""
+    from ..absint import Interp, State
+    from ..domains.nullness import NullDomain
+
+    prog = ctx.prog
+    n = 0
+    for short, m in sorted(prog.format_modules().items()):
+        lo, do = prog.format_op(short, "load_one"), prog.format_op(short, "dump_one")
+        if lo is None or do is None:
+            continue
+        wk = {}
+        for g in [do] + [h for h in prog.callees_closure([do]) if h.module is do.module]:
+            for x in g.own_nodes():
+                attr = key = None
+                if isinstance(x, ast.Subscript) and isinstance(x.value, ast.Attribute) and x.value.attr in DICT_ATTRS and isinstance(x.slice, ast.Constant) and isinstance(x.slice.value, str) and isinstance(x.ctx, ast.Load):
+                    attr, key = x.value.attr, x.slice.value
+                elif isinstance(x, ast.Call) and isinstance(x.func, ast.Attribute) and x.func.attr == "get" and isinstance(x.func.value, ast.Attribute) and x.func.value.attr in DICT_ATTRS and x.args and isinstance(x.args[0], ast.Constant) and isinstance(x.args[0].value, str):
+                    attr, key = x.func.value.attr, x.args[0].value
+                elif isinstance(x, ast.Compare) and len(x.ops) == 1 and isinstance(x.ops[0], (ast.In, ast.NotIn)) and isinstance(x.left, ast.Constant) and isinstance(x.left.value, str) and isinstance(x.comparators[0], ast.Attribute) and x.comparators[0].attr in DICT_ATTRS:
+                    attr, key = x.comparators[0].attr, x.left.value
+                if key is not None:
+                    wk.setdefault(attr, {})[key] = (g, x)
+        if not wk:
+            continue
+        it = Interp(prog, NullDomain(prog))
+        try:
+            ret, st = it.run_function(lo, {}, State())
+        except AnalysisError as exc:
+            raise AnalysisError(f"while analysing {lo.qualname}: {exc}") from exc
+        ro = it.obj(st, ret)
+        rk = {}
+        if ro is not None:
+            for a in DICT_ATTRS:
+                v = ro.slots.get(a)
+                o = it.obj(st, v) if v is not None else None
+                if o is not None:
+                    rk[a] = {k for k in o.slots if isinstance(k, str)}
+        for attr, keys in sorted(wk.items()):
+            if attr not in rk:
+                ctx.note(f"{short}: the reader's `{attr}` dictionary is not resolved by the interpreter; keys {sorted(keys)} not compared")
+                continue
+            for key, (g, node) in sorted(keys.items()):
+                n += 1
+                if key in rk[attr]:
+                    ctx.ok(rid, f"{short}: `{attr}[{key!r}]` is read by the writer and stored by the reader", f"{g.module.relpath}:{node.lineno}", sample=False)
+                else:
+                    ctx.violate(rid, f"{short} writer looks up `{attr}[{key!r}]`, but the {short} reader stores only {sorted(rk[attr])} under `{attr}`: a value loaded from a {short} file is never written back (the writer silently uses its default)", g, node)
+    ctx.floor(rid, n, 25, "dictionary keys looked up by writers")
